@@ -312,7 +312,8 @@ def placed : List Ev → List Nat → List (V × Nat)
 def Prog.WFb (p : Prog) : Bool :=
   (List.range p.nodes.length).all (fun n =>
     (p.inputs n).all (fun i => decide (i < n)) &&
-    (p.subs n).all (fun g => decide (g < p.graphs.length) && (p.results g).all (fun r => decide (r < n))) &&
+    (p.subs n).all (fun g => decide (g < p.graphs.length) && decide (0 < g) &&
+      (p.results g).all (fun r => decide (r < n))) &&
     (!p.isArg n || ((p.inputs n).isEmpty && (p.subs n).isEmpty))) &&
   p.graphs.all (fun pg => pg.results.all (fun r => decide (r < p.nodes.length)) &&
     match pg.args with
